@@ -186,4 +186,52 @@ Section Index.
            | Err => go t (aset (im_name m) (cur ++ [cv])%list es)
            end
        end) (flat_map snd (entries_of f)) es.
+  (* pkg/cmd/search/search.go AddRepo :64 (what `helm search repo` does with every cached index):
+       ind.SortEntries()
+       for name, ref := range ind.Entries {
+           if len(ref) == 0 { continue }                       (* the guard *)
+           if !all { lines[fname] = indstr(rname, ref[0]); charts[fname] = ref[0]; continue }
+           for _, rr := range ref { versionedName := fname + verSep + rr.Version; ... indstr(rname, rr) }
+       }
+     indstr reads ref.Name / Description / Keywords through the entry and its embedded metadata.
+     [len_guard] = false is the guard `ref == nil`: [nil_slice name] then says which names hold a
+     nil slice (`name: null`); `name: []`, or a list that loadIndex emptied, is empty but not nil.
+     Result: the keys added to the search index. *)
+  Definition indstr_reads (e : centry) : res string :=
+    cv <- deref "ref.Name" e ;;
+    m <- deref "ref.Metadata.Name" cv ;;
+    Ok (im_name m).
+
+  Fixpoint add_all (fname : string) (ref : list centry) : res (list string) :=
+    match ref with
+    | [] => Ok []
+    | rr :: t =>
+        v <- entry_version rr ;;                                (* rr.Version *)
+        _ <- indstr_reads rr ;;
+        rest <- add_all fname t ;;
+        Ok ((fname ++ "$$" ++ v) :: rest)
+    end.
+
+  Fixpoint add_repo_loop (len_guard : bool) (nil_slice : string -> bool) (all : bool) (rname : string)
+           (es : list (string * list centry)) : res (list string) :=
+    match es with
+    | [] => Ok []
+    | (name, ref) :: t =>
+        let skip := if len_guard then Nat.eqb (List.length ref) 0 else nil_slice name in
+        here <- (if skip then Ok []
+                 else
+                   let fname := rname ++ "/" ++ name in
+                   if all then add_all fname ref
+                   else
+                     r0 <- index ref 0 ;;                        (* ref[0] *)
+                     _ <- indstr_reads r0 ;;
+                     Ok [fname]) ;;
+        rest <- add_repo_loop len_guard nil_slice all rname t ;;
+        Ok (here ++ rest)%list
+    end.
+
+  Definition add_repo (len_guard : bool) (nil_slice : string -> bool) (all : bool) (rname : string)
+             (ind : rawindex) : res (list string) :=
+    es <- sort_entries (entries_of ind) ;;
+    add_repo_loop len_guard nil_slice all rname es.
 End Index.
